@@ -1,5 +1,9 @@
 import CCVerif.Model.RSModel
 import CCVerif.Lemmas.RSModel
+import CCVerif.Lemmas.RSModelGen
+import CCVerif.Lemmas.RSModelGenRen
+import CCVerif.Lemmas.RSModelGenFrag
+import CCVerif.Lemmas.RSModelGenSim
 /-!
 # C11 — a model never shows a calculated value that is stale w.r.t. current data
 -/
@@ -171,3 +175,141 @@ example : ¬ AdmissibleFrom {} histDup := by decide
 example : AdmissibleFrom {} histRename := by decide
 
 end CCVerif.RSModel
+
+/-! # The same for ANY evaluation that satisfies the laws
+
+`Model/RSModelGen.lean` is the value bookkeeping of `Model/RSModel.lean` over the generic schema
+machine of C07 (`Model/SchemaGen.lean`, analysis `A`), with the evaluation as a parameter
+`E : Eval D I V` (`eval ctx c`: value of the definition of `c`, `ctx name` = the value stored for the
+constituent the name denotes). Hypotheses: `SchemaGen.Lawful A` (C07), `EvalLawful A E`:
+
+* `mono` — FRAME + monotonicity: `eval` reads `ctx` only at `mentions c.defn`, and more information
+  does not change a value already obtained (the real evaluator short-circuits `&`, `∨`, `⇒` and
+  quantifiers over empty sets, so it is NOT strict in the mentioned names; monotone it is);
+* `missing` — a mentioned name that denotes nothing makes the ANALYSIS fail;
+* `verified_ok` — `status == VERIFIED` only on successful entries;
+* `skel_indep` — the analysis does not read the store-without-definitions;
+
+and, for the renaming operations only, `Equivariant A E`: a consistent renaming of constituents,
+definitions and context changes the analysis entries uniformly (`renI`) and the values not at all. -/
+namespace CCVerif.RSModelGen
+open CCVerif.SchemaGen (Analysis Lawful Cst fragA fragA_lawful heightA heightA_lawful AliasesDistinct)
+
+/-- **C11, generic.** For every analysis and evaluation satisfying the laws and every admissible
+history (`AdmissibleAllFrom`: no `load`; after every `insert`, `setAlias`, `substitute` the aliases are
+still pairwise distinct) of insertions, erasures, definition edits, renamings with or without
+substitution, `UpdateState`, data edits of base sets, `Calculate` and `RecalculateAll`, every term that
+reports a calculated value reports the value a full recalculation from the current base data and
+definitions gives. -/
+theorem fresh_generic {D I V : Type} [DecidableEq D] (A : Analysis D I) (E : Eval D I V)
+    (hA : Lawful A) (hE : EvalLawful A E) (hQ : Equivariant A E) (ops : List (Op D V))
+    (ha : AdmissibleAllFrom A E {} ops) : (run A E ops).Fresh A E :=
+  (Inv.runAll hA hE hQ ha).fresh hA hE
+
+/-- the same for histories along which aliases stay pairwise distinct (the discipline of `RSCore`) -/
+theorem fresh_generic_of_distinct_aliases {D I V : Type} [DecidableEq D] (A : Analysis D I)
+    (E : Eval D I V) (hA : Lawful A) (hE : EvalLawful A E) (hQ : Equivariant A E) (ops : List (Op D V))
+    (hl : ∀ op ∈ ops, ∀ c, op ≠ .schema (.load c))
+    (hd : ∀ k, AliasesDistinct (run A E (ops.take k)).sch) : (run A E ops).Fresh A E :=
+  fresh_generic A E hA hE hQ ops (admissibleAllFrom_of_distinct ops {} hl hd)
+
+/-- without the equivariance hypothesis: histories without renaming operations (`AdmissibleFrom`
+excludes `setAlias` and `substitute`) -/
+theorem fresh_generic_no_renaming {D I V : Type} [DecidableEq D] (A : Analysis D I) (E : Eval D I V)
+    (hA : Lawful A) (hE : EvalLawful A E) (ops : List (Op D V)) (ha : AdmissibleFrom A E {} ops) :
+    (run A E ops).Fresh A E :=
+  (Inv.run hA hE ha).fresh hA hE
+
+/-- stronger, independent of the `calculated` flag: whatever value is stored for a term is the value a
+full recalculation assigns -/
+theorem stored_eq_recomputed_generic {D I V : Type} [DecidableEq D] (A : Analysis D I) (E : Eval D I V)
+    (hA : Lawful A) (hE : EvalLawful A E) (hQ : Equivariant A E) (ops : List (Op D V))
+    (ha : AdmissibleAllFrom A E {} ops)
+    {u : Nat} {v : V} (hk : (run A E ops).kindOf u = some .term) (hv : (run A E ops).dataFor u = some v) :
+    ((run A E ops).recomputed A E).dataFor u = some v :=
+  (Inv.runAll hA hE hQ ha).recomputed_eq hA hE hk hv
+
+/-- what the stored values are, declaratively: every value stored for a term is its intended value
+`TVal` (least solution: the term is verified and the value is the evaluation of its definition
+against intended values of constituents it mentions), the intended value is unique, and
+`RecalculateAll` stores the intended value of every constituent that has one -/
+theorem values_declarative_generic {D I V : Type} [DecidableEq D] (A : Analysis D I) (E : Eval D I V)
+    (hA : Lawful A) (hE : EvalLawful A E) (hQ : Equivariant A E) (ops : List (Op D V))
+    (ha : AdmissibleAllFrom A E {} ops) :
+    (∀ u v, (run A E ops).kindOf u = some .term → (run A E ops).dataFor u = some v →
+      TVal A E (run A E ops).sch.store (run A E ops).dataFor u v) ∧
+    (∀ u v v', TVal A E (run A E ops).sch.store (run A E ops).dataFor u v →
+      TVal A E (run A E ops).sch.store (run A E ops).dataFor u v' → v = v') ∧
+    (∀ u v, TVal A E (run A E ops).sch.store (run A E ops).dataFor u v →
+      ((run A E ops).recalculateAll A E).dataFor u = some v) := by
+  have h := Inv.runAll hA hE hQ ha
+  exact ⟨h.val, fun _ _ _ h1 h2 => h1.unique hE h.wf.base.nodup h2,
+    fun _ _ ht => recalc_computes hA hE h.wf ht⟩
+
+/-- the statement WITHOUT the equivariance hypothesis: all operations, `Lawful` + `EvalLawful` only -/
+def fresh_generic_statement : Prop :=
+  ∀ (D I V : Type) [DecidableEq D] (A : Analysis D I) (E : Eval D I V), Lawful A → EvalLawful A E →
+    ∀ ops : List (Op D V), AdmissibleAllFrom A E {} ops → (run A E ops).Fresh A E
+
+/-- an evaluation that reads the NAMES in a definition (`nameE`: 1 if the definition mentions `X1`
+literally) satisfies the laws; `D1 := X1` is calculated to 1, then `X1` is renamed to `X2` with
+substitution: the definition becomes `X2`, the stored value stays 1, a recalculation gives 0 -/
+def histName : List (Op (List String) Nat) :=
+  [.schema (.insert ⟨1, "X1", .base, []⟩), .schema (.insert ⟨2, "D1", .term, ["X1"]⟩), .calculate 2,
+   .schema (.substitute [("X1", "X2")])]
+
+theorem fresh_generic_rename_counterexample :
+    AdmissibleAllFrom heightA nameE {} histName ∧
+    (run heightA nameE histName).report = [(1, false, some 0), (2, true, some 1)] ∧
+    ((run heightA nameE histName).recomputed heightA nameE).report = [(1, false, some 0), (2, true, some 0)] := by
+  refine ⟨by decide, by decide, by decide⟩
+
+/-- that statement is false: the equivariance hypothesis of `fresh_generic` cannot be dropped -/
+theorem fresh_generic_statement_false : ¬ fresh_generic_statement := by
+  intro h
+  have hf := h (List String) (Option Nat) Nat heightA nameE heightA_lawful nameE_lawful histName
+    fresh_generic_rename_counterexample.1
+  have := hf ⟨2, "D1", .term, ["X2"]⟩ (by decide) rfl (by decide) 1 (by decide)
+  revert this
+  decide
+
+/-- the fragment machine of `Model/RSModel.lean` is simulated by the instance `(fragA, fragE)` of the
+generic machine, step by step (`toGR` drops the text interpretation; `opsG st op`: the 0 or 1 generic
+operations a fragment operation amounts to in the state `st`) -/
+theorem fragment_is_instance (st : RSModel.St) (op : RSModel.Op) :
+    toGR (RSModel.step false st op) = (opsG st op).foldl (step fragA fragE) (toGR st) := toGR_step st op
+
+/-- **C11 for the fragment, as a corollary of the generic theorem** (`fragA_lawful`, `fragE_lawful`,
+`fragEquivariant` discharge the hypotheses; nothing of the fragment-specific development
+`Lemmas/RSModel.lean` §2–§8 is used) -/
+theorem fresh_from_generic (ops : List RSModel.Op) (ha : RSModel.AdmissibleFrom {} ops) :
+    (RSModel.run false ops).fresh = true := fresh_via_generic ops ha
+
+/-! non-vacuity: the fragment of `Model/RSModel.lean` is an instance of all three sets of laws; an
+admissible history with data edits, a definition edit over a dependant, renamings with and without
+substitution and an erasure, in which calculated values survive -/
+
+example : EvalLawful fragA fragE := fragE_lawful
+example : Equivariant fragA fragE := fragEquivariant
+example : EvalLawful heightA nameE := nameE_lawful
+
+def gHist : List (Op Schema.Def RSModel.Data) :=
+  [.schema (.insert ⟨1, "X1", .base, .empty⟩), .setBase 1 [1, 2],
+   .schema (.insert ⟨2, "D1", .term, .union ["X1"]⟩), .schema (.insert ⟨3, "D2", .term, .union ["D1"]⟩),
+   .schema (.insert ⟨4, "D3", .term, .union ["X1", "X1"]⟩), .recalculateAll,
+   .schema (.setDef 2 (.union ["D3"])), .calculate 2, .setBase 1 [1, 3], .calculate 4,
+   .schema (.erase 3), .schema .updateState]
+
+example : AdmissibleFrom fragA fragE {} gHist := by decide
+example : (run fragA fragE gHist).report =
+    [(1, false, some [1, 3]), (2, false, none), (4, true, some [1, 3])] := by decide
+
+def gHistRen : List (Op Schema.Def RSModel.Data) :=
+  gHist ++ [.calculate 2, .schema (.setAlias 1 "X2" true), .schema (.substitute [("D1", "D5"), ("D3", "D1")]),
+    .schema (.setAlias 4 "D7" false)]
+
+example : AdmissibleAllFrom fragA fragE {} gHistRen := by decide
+example : (run fragA fragE gHistRen).report =
+    [(1, false, some [1, 3]), (2, false, none), (4, true, some [1, 3])] := by decide
+
+end CCVerif.RSModelGen
